@@ -42,6 +42,15 @@ add('C19', 'E-RUN+E-CAT', 'fault_enumeration',
     'Trusted: E-CAT model of ALTER ... MODIFY TTL/SETTING and of the settings table (argMax read semantics). Required values are computed from the configuration and the property text, not from the statements issued. Fault points complete per configuration; configurations sampled by the PRNG.',
     'runtime fault enumeration on the real Rotate against a modelled catalogue, statement-log monitor', 'DESIGN §3 C19, Appendix B')
 
+add('C06', 'E-RUN+gen+E-SQLDRV', 'exploration',
+    'Round trip across the writer/reader boundary: generated span batches (OTLP protobuf; Zipkin JSON array and NDJSON) go through the exported ingest parsers; oracle 1 checks exactly one trace row per span with the pushed ids/parent/times/name/service and exactly one tag row per flattened attribute with the same ids and times; oracle 2 replays the stored rows as database rows (scripted database/sql driver) into the real trace read path and compares ids, name, times, parent, service and every pushed attribute with its typed value.',
+    'Trusted: the span renderers; flattening rule restated from the property text; double-valued tag rows compared within 1e-6 (6-decimal rendering not judged); service name judged only where unambiguous.',
+    'runtime monitoring: differential round trip through the real write and read paths vs spans known by construction', 'DESIGN §3 C06')
+add('C20', 'real binary + E-CHTCP + hook', 'exploration',
+    'The real qryn binary (built from the working tree with -tags verif) is started in writer and reader mode with basic auth configured, CORS on and off, against a fake native-protocol ClickHouse server; the real route table is dumped by the hook and every route x method is hit with a matrix of Authorization headers x Accept-Encoding x Origin. Oracle: without exactly the right credentials the answer is 401 (400 for a malformed header), never a handler body, and no query reaches the fake database; with the right credentials the request reaches the handler (database interactions observed).',
+    'Trusted: the fake ClickHouse wire server as the observer of database interactions; route table = what mux.Walk reports for the router main registered. Exhaustive over the dumped route table x the header list of the tier.',
+    'runtime monitoring of the real binary: route walk x header matrix with a database-interaction monitor', 'DESIGN §3 C20, §5')
+
 NOT_APPLICABLE = {
 }
 ALL = ['C%02d' % i for i in range(1, 21)]
@@ -85,12 +94,15 @@ def main():
     json.dump(m, open('/verif/MANIFEST.json', 'w'), indent=1)
     print('MANIFEST.json written:', len(checks), 'checks,', len(na), 'not claimed')
 
-HOOK_COMMITS = []
+HOOK_COMMITS = ['2f6c793']
 ENGINES = [
  {'name': 'E-RUN', 'path': 'harness/engines/run', 'serves_properties': ALL, 'kind_free_text': 'case runner: seeds, child processes with write-ahead log, verdicts, evidence, known findings'},
  {'name': 'E-CHW', 'path': 'harness/engines/chw', 'serves_properties': ['C01','C02','C03','C04','C05','C06'], 'kind_free_text': 'fake ClickHouse insert client with fault scripts and a logically-clocked ledger; in-process assembly of the real writer'},
  {'name': 'E-CAT', 'path': 'harness/engines/cat', 'serves_properties': ['C18','C19'], 'kind_free_text': 'fake clickhouse.Conn with a modelled catalogue (DDL effects, ClickHouse errors, ver/settings tables, fault injection at statement i)'},
  {'name': 'E-RACE', 'path': 'harness/engines/race', 'serves_properties': ['C01','C02'], 'kind_free_text': 'race-detector report collector, de-duplication and scope classifier'},
+ {'name': 'E-SQLDRV', 'path': 'harness/engines/sqldrv', 'serves_properties': ['C06','C07','C08','C09','C10','C11','C12','C13','C14','C15','C17'], 'kind_free_text': 'scripted database/sql driver behind the reader seams (statement log, scripted rows, faults, open-rows tracking) and in-process assembly of the real reader routes'},
+ {'name': 'E-CHSQL', 'path': 'harness/engines/chsql', 'serves_properties': ['C07','C08','C09','C11','C13','C14','C16','C17'], 'kind_free_text': 'reference interpreter for the ClickHouse SQL subset the planners emit (oracle; self-tested against a corpus of captured statements)'},
+ {'name': 'E-CHTCP', 'path': 'harness/engines/chtcp', 'serves_properties': ['C20'], 'kind_free_text': 'fake native-protocol ClickHouse TCP server (hello, ping, query log, INSERT exchange)'},
  {'name': 'gen', 'path': 'harness/engines/gen', 'serves_properties': ['C01','C02','C03','C04','C05','C06'], 'kind_free_text': 'ingest body generators (expected rows known by construction)'},
 ]
 if __name__ == '__main__':
